@@ -21,13 +21,61 @@ RULE = ("random call histories (length 2-12, with repeats) of {expand_macros (+p
 ASSUMPTIONS = ["fingerprint = types, __dict__ contents, container order and aliasing structure of everything reachable from the argument",
                "mutating an *output* and seeing the input change is an observation, not a violation (the docstrings allow sharing)"]
 TIERS = {"quick": {"shards": 8, "budget_s": 50}, "thorough": {"shards": 16, "budget_s": 420}}
-REQUIRE = {"histories": 500, "calls": 4000, "contract-evaluations": 4000, "results-compared-with-fresh": 4000,
+REQUIRE = {"native:partial": 50, "op:expand_subcircuits_custom": 100, "histories": 500, "calls": 4000, "contract-evaluations": 4000, "results-compared-with-fresh": 4000,
            "op:run": 200, "op:parse_output": 200, "op:unit_timing": 200, "chained-calls": 300}
 
 OPS = ["expand_macros", "expand_macros_preserve", "fill_in_let", "fill_in_let_ov", "fill_in_map", "expand_subcircuits",
-       "unit_timing", "used_qubits", "generate", "run", "parse_output"]
+       "expand_subcircuits_custom", "expand_subcircuits_names", "unit_timing", "used_qubits", "generate", "run", "parse_output"]
 CIRCUIT_OPS = {"expand_macros", "expand_macros_preserve", "fill_in_let", "fill_in_let_ov", "fill_in_map", "expand_subcircuits",
-               "unit_timing"}
+               "expand_subcircuits_custom", "expand_subcircuits_names", "unit_timing"}
+_CUSTOM = {}
+
+
+def custom_defs():
+    if not _CUSTOM:
+        from jaqalpaq.core.gatedef import BusyGateDefinition
+
+        _CUSTOM["p"] = BusyGateDefinition("my_prepare")
+        _CUSTOM["m"] = BusyGateDefinition("my_measure")
+    return _CUSTOM["p"], _CUSTOM["m"]
+
+
+def partial_native():
+    """A native gate set that lacks the bounding gates (they are then created on demand)."""
+    g = dict(X.native())
+    g.pop("prepare_all")
+    g.pop("measure_all")
+    g.pop("I_prepare_all", None)
+    g.pop("I_measure_all", None)
+    return g
+
+
+def fold_sections(s):
+    """prepare_all ; B ; measure_all  ->  subcircuit { B }   (so that a program needs no bounding gate definitions)."""
+    if not isinstance(s, tuple):
+        return s
+    k = s[0]
+    if k in ("circuit", "sequential_block"):
+        items = [fold_sections(x) for x in s[1:]]
+        out = []
+        i = 0
+        while i < len(items):
+            x = items[i]
+            if x == ("gate", "prepare_all"):
+                j = i + 1
+                while j < len(items) and items[j] != ("gate", "measure_all") and items[j] != ("gate", "prepare_all"):
+                    j += 1
+                if j < len(items) and items[j] == ("gate", "measure_all") and not any(
+                        y[0] == "subcircuit_block" for it in items[i + 1:j] for y in sx.walk(it) if isinstance(it, tuple)):
+                    out.append(("subcircuit_block", "") + tuple(items[i + 1:j]))
+                    i = j + 1
+                    continue
+            out.append(x)
+            i += 1
+        return (k,) + tuple(out)
+    if k == "loop":
+        return ("loop", s[1], fold_sections(s[2]))
+    return s
 
 
 def do(op, c, ctxd):
@@ -43,6 +91,10 @@ def do(op, c, ctxd):
         return lib.fill_in_map(c)
     if op == "expand_subcircuits":
         return lib.expand_subcircuits(c)
+    if op == "expand_subcircuits_custom":
+        return lib.expand_subcircuits(c, *custom_defs())
+    if op == "expand_subcircuits_names":
+        return lib.expand_subcircuits(c, "prep_x", "meas_x")
     if op == "unit_timing":
         return lib.unit_timing(c)
     if op == "used_qubits":
@@ -102,7 +154,8 @@ def judge(case, rec=None):
     prog = case_prog(case)
     hist = case["history"]
     text = sx.to_text(prog)
-    native = X.native() if case.get("native", True) else None
+    nat = case.get("native", True)
+    native = partial_native() if nat == "partial" else (X.native() if nat else None)
     o = lib.outcome(lib.parse, text, native)
     if o[0] != "ok":
         return "skipped:input-rejected", [], {}
@@ -195,6 +248,7 @@ def process(ctx, case):
         rec.count(st)
         return
     rec.count("histories")
+    rec.count("native:%s" % case.get("native"))
     rec.count("calls", info["calls"])
     rec.count("results-compared-with-fresh", info["compared"])
     rec.count("chained-calls", info["chained"])
@@ -237,7 +291,7 @@ def repo_tests_under_contracts(ctx):
 def shard(ctx):
     rec = ctx.rec
     monitors.install_contracts()
-    n = ctx.scale(1000, 50000)
+    n = ctx.scale(3000, 50000)
     i = 0
     while i < n and not rec.expired():
         i += 1
@@ -255,7 +309,12 @@ def shard(ctx):
             if s[0] == "let" and isinstance(s[2], float) and rng.random() < 0.5:
                 ov[s[1]] = rng.uniform(-3, 3)
         nvis = rng.randint(0, 6)
-        case = {"prog": prog, "native": exe, "ov": ov, "npseed": rng.randrange(1 << 30),
+        nat = exe
+        if exe and rng.random() < 0.3:
+            folded = fold_sections(prog)
+            if not any(x[0] == "gate" and x[1] in ("prepare_all", "measure_all") for x in sx.walk(folded)):
+                prog, nat = folded, "partial"
+        case = {"prog": prog, "native": nat, "ov": ov, "npseed": rng.randrange(1 << 30),
                 "outputs": [rng.randrange(2) for _ in range(nvis)], "history": make_history(rng, rng.randint(2, 12))}
         if not exe:
             case["history"] = [s for s in case["history"] if (s if isinstance(s, str) else s[1]) not in ("run", "parse_output")] or ["generate", "expand_macros"]
